@@ -21,8 +21,27 @@ ASSUMPTIONS = ["solve_ivp returns strictly increasing times"]
 
 def _sim_adv(rng, k, dense, rates, zmax=8):
     from ebisim.simulation import advanced_simulation
+    import ebisim
     dev, dkw = gens.make_device(rng, n_grid=60)
     tg, tdesc = gens.make_targets(rng, dev, k=k, zmax=zmax)
+    if k >= 2:
+        # the same element twice (e.g. injected ions plus residual gas of the same species)
+        i, j = (int(x) for x in rng.choice(k, 2, replace=False))
+        z = tg[i].z
+        if rng.integers(2):
+            p, T = float(10 ** rng.uniform(-11, -8)), float(rng.uniform(80, 500))
+            tg[j] = ebisim.Element.get_gas(z, p, dev.r_dt, T, cx=bool(rng.integers(2))); tdesc[j] = ("gas", z, p, T, bool(tg[j].cx))
+        else:
+            nl, kT, q = float(10 ** rng.uniform(3, 8)), float(10 ** rng.uniform(0, 2)), int(rng.integers(0, z + 1))
+            tg[j] = ebisim.Element.get_ions(z, nl, kT, q, cx=bool(rng.integers(2))); tdesc[j] = ("ions", z, nl, kT, q, bool(tg[j].cx))
+    # explicit initial conditions: arbitrary densities, one common or arbitrary temperatures, empty states hotter / colder than fwhm*q
+    i = int(rng.integers(0, k))
+    z = tg[i].z
+    n = np.where(rng.uniform(size=z + 1) < 0.5, 10 ** rng.uniform(2, 7, z + 1), _min_n() * rng.choice([1.0, 0.5, 1.000001], z + 1))
+    n[int(rng.integers(0, z + 1))] = 1e5
+    kT = np.full(z + 1, float(10 ** rng.uniform(0, 2.5))) if rng.integers(2) else 10 ** rng.uniform(-1, 3, z + 1)
+    tg[i] = ebisim.Element.get(z, n=n, kT=kT, cx=bool(rng.integers(2)))
+    tdesc[i] = ("explicit", z, n.tolist(), kT.tolist(), bool(tg[i].cx))
     bg, bdesc = gens.make_gases(rng, k=1)
     opts, okw = gens.make_options(rng, RADIAL_DYNAMICS=False, RECOMPUTE_CROSS_SECTIONS=False)
     tmax = float(10 ** rng.uniform(-5, -3))
@@ -104,8 +123,10 @@ def check_adv(ctx, rng, k, dense, rates, V):
             viol("first_column", f"target #{i}: initial densities are not the declared ones", target=i)
         if (k0[unpop] < dev.fwhm * np.arange(tg_.z + 1)[unpop]).any():
             viol("first_column", f"target #{i}: temperature of an unpopulated state starts below fwhm*q", target=i)
-        if not np.array_equal(k0[~unpop], tg_.kT[~unpop]) or (k0[unpop] < tg_.kT[unpop]).any():
-            viol("first_column", f"target #{i}: declared initial temperatures altered for populated states", target=i)
+        if not np.array_equal(k0[~unpop], tg_.kT[~unpop]):
+            viol("first_column", f"target #{i}: declared initial temperatures of populated states altered", target=i)
+        if (k0[unpop] < tg_.kT[unpop]).any():
+            viol("first_column", f"target #{i}: temperature of an unpopulated state starts below its declared value (may only be raised)", target=i)
     # --- queries
     inside, outside = query_times(rng, sol.t)
     tline = farr(sol.t)
